@@ -203,8 +203,8 @@ pub fn run(cfg: &Cfg, rep: &mut Report) {
             // derived enums: a character datum selecting no variant is "not in the allowed set" (value fault) whatever it
             // looks like - a variant's stem with a suffix no variant carries, a partial long form, another word; another
             // element kind is a type fault
-            use crate::props::enums_corpus::CORPUS;
-            let e = &CORPUS[rng.usize(CORPUS.len())];
+            let corpus = crate::props::enums_fixed::all_enums();
+            let e = corpus[rng.usize(corpus.len())];
             let m = e.mnemonics[rng.usize(e.mnemonics.len())];
             let mut cands = Vec::new();
             crate::props::c03::candidates(rng, m, &mut cands);
